@@ -71,6 +71,9 @@ inductive Event
   | bl (ip : Nat) | unbl (ip : Nat)                         -- IPManager.AddToBlacklist / RemoveFromBlacklist (one address)
   | blr (g : Nat) | unblr (g : Nat)                         -- the same for a CIDR range: range `g` covers addresses 2g, 2g+1
   | restart                                                 -- a new IPManager over the same storage replaces the live one
+  | wl (ip : Nat) | unwl (ip : Nat)                         -- IPManager.AddToWhitelist / RemoveFromWhitelist (one address)
+  | unexp (k : Nat)                                         -- the client's credentials never expire (ExpiresAt = nil)
+  | issue (fails : Bool)                                    -- from now on GenerateAnonymousCredentials fails / works again
   | refill (ip : Nat)                                       -- time passes for the anonymous-connection limiter
   | exp (k : Nat) | del (k : Nat) | strip (k : Nat) (st : SecState)   -- credentials expire / config deleted / stored secret becomes `st`
 deriving DecidableEq, Repr
@@ -97,12 +100,15 @@ structure Env where
   xban : Nat → Bool := fun _ => false       -- ghost: banned by an explicit `ban` event (⊆ banned)
   bl : Nat → Bool := fun _ => false         -- IPManager.blacklist
   blr : Nat → Bool := fun _ => false        -- IPManager.blacklist, CIDR entries (per range)
+  wl : Nat → Bool := fun _ => false         -- IPManager.whitelist (exact entries)
+  issueFails : Bool := false                -- fault: credential generation (storage / crypto) fails
   cl : Nat → ClientConfigT := fun _ => {}   -- ClientConfig per client number
 
 /-- `IPManager.findInList(ip, blacklist) != nil`: an exact entry for the address or a CIDR entry whose range contains
 it.  The blacklist is persisted (`saveToStorage` / `removeFromStorage`) and reloaded by `NewIPManager`
-(`loadFromStorage`), so it is the same for the live instance and for one created later over the same storage. -/
-def Env.blocked (g : Env) (ip : Nat) : Bool := g.bl ip || g.blr (ip / 2)
+(`loadFromStorage`), so it is the same for the live instance and for one created later over the same storage.
+A whitelisted address is never blocked (`IsAllowed` looks at the whitelist first). -/
+def Env.blocked (g : Env) (ip : Nat) : Bool := !g.wl ip && (g.bl ip || g.blr (ip / 2))
 
 /-- what a written HandshakeResponse looks like (or that none was written) -/
 inductive RespObs | ok | new (k : Nat) | ch (n : Nat) | fail | none | na
@@ -157,6 +163,10 @@ def Env.track (g : Env) (now nc : Nat) (e : Event) (r : RespObs) : Env :=
   | .blr r => { g with blr := upd g.blr r true }
   | .unblr r => { g with blr := upd g.blr r false }
   | .restart => g
+  | .wl ip => { g with wl := upd g.wl ip true }
+  | .unwl ip => { g with wl := upd g.wl ip false }
+  | .unexp k => if k < nc && !(g.cl k).deleted then { g with cl := upd g.cl k { g.cl k with ExpiresAt := none } } else g
+  | .issue b => { g with issueFails := b }
   | .refill _ => g
   | .exp k => if k < nc && !(g.cl k).deleted then { g with cl := upd g.cl k { g.cl k with ExpiresAt := some (now - 1) } } else g
   | .del k => if k < nc then { g with cl := upd g.cl k { g.cl k with deleted := true } } else g
@@ -212,6 +222,8 @@ def getClientConfig (s : Srv) : CRef → Option (Nat × ClientConfigT)
 
 /-- `handleFirstConnection`: new credentials, RecordSuccess, SetClientID, SetAuthenticated. -/
 def handleFirstConnection (s : Srv) (c ip : Nat) : Srv × HRes :=
+  if s.env.issueFails then (recordFailure s ip, .err)      -- GenerateAnonymousCredentials failed: RecordFailure, error
+  else
   (setCtl (recordSuccess { s with nClients := s.nClients + 1 } ip) c { getCtl s c with id := some s.nClients, auth := true },
    .issued s.nClients)
 
@@ -324,6 +336,10 @@ def stepCore (s : Srv) : Event → Srv × RespObs
   | .restart => (s, .na)      -- `loadFromStorage` restores exactly what `saveToStorage`/`removeFromStorage` kept
   | .refill ip => ({ s with rlUsed := upd s.rlUsed ip 0 }, .na)
   | .exp _ => (s, .na)
+  | .wl _ => (s, .na)
+  | .unwl _ => (s, .na)
+  | .unexp _ => (s, .na)
+  | .issue _ => (s, .na)
   | .del _ => (s, .na)
   | .strip _ _ => (s, .na)
 
